@@ -9,6 +9,8 @@ import (
 
 	formula "github.com/aundis/formula"
 
+	"github.com/ericlagergren/decimal"
+
 	"verif/internal/eng"
 	"verif/internal/ref"
 )
@@ -53,7 +55,7 @@ var c16Func = func(x interface{}) (interface{}, error) { return x, nil }
 func c16Universe(depth int) map[string]interface{} {
 	var np *c16S
 	m := map[string]interface{}{
-		"z": 0.0, "n": nil, "np": np, "len": "shadowed-len", "now": 5.0,
+		"z": 0.0, "n": nil, "np": np, "npd": (*decimal.Big)(nil), "npt": (*time.Time)(nil), "nps": (*string)(nil), "npi": (*int)(nil), "len": "shadowed-len", "now": 5.0,
 		"i": 41, "i32": int32(-32), "i64": int64(9007199254740993), "f64": 2.5, "str": "text", "e": "", "bl": false, "t": true,
 		"tm": c16Time, "sl": c16Slice, "f": c16Func, "zt": time.Time{}, "nsl": []string(nil), "nany": []interface{}(nil), "esl": []interface{}{},
 		"mi": map[string]int{"z": 0, "o": 1}, "ms": map[string]string{"e": "", "a": "x"}, "mb": map[string]bool{"f": false, "t": true},
@@ -81,7 +83,7 @@ func c16Universe(depth int) map[string]interface{} {
 	return m
 }
 
-var c16Keys = []string{"k", "s", "A", "b", "z", "q", "n", "np", "len", "now", "i", "i32", "i64", "f64", "str", "e", "bl", "t", "tm", "sl", "f", "mi", "ms", "mb", "M", "o", "a", "I64", "F", "Str", "Z", "Np", "T", "Sl", "x", "Missing", "sa", "sb", "sc", "Name", "Age", "ID", "zt", "nsl", "nany", "esl", "$loc"}
+var c16Keys = []string{"k", "s", "A", "b", "z", "q", "n", "np", "len", "now", "i", "i32", "i64", "f64", "str", "e", "bl", "t", "tm", "sl", "f", "mi", "ms", "mb", "M", "o", "a", "I64", "F", "Str", "Z", "Np", "T", "Sl", "x", "Missing", "sa", "sb", "sc", "Name", "Age", "ID", "zt", "nsl", "nany", "esl", "$loc", "npd", "npt", "nps", "npi"}
 
 var c16Configs = map[string]func() map[string]interface{}{
 	"full":  func() map[string]interface{} { return c16Universe(3) },
@@ -89,7 +91,7 @@ var c16Configs = map[string]func() map[string]interface{}{
 	"none":  func() map[string]interface{} { return nil },
 	"nulls": func() map[string]interface{} {
 		var np *c16S
-		return map[string]interface{}{"k": nil, "s": np, "z": nil, "mi": map[string]int(nil), "M": map[string]interface{}(nil), "str": "text", "i": 1}
+		return map[string]interface{}{"k": nil, "s": np, "z": nil, "npd": (*decimal.Big)(nil), "npi": (*int)(nil), "mi": map[string]int(nil), "M": map[string]interface{}(nil), "str": "text", "i": 1}
 	},
 }
 var c16Cache = map[string]map[string]interface{}{}
@@ -367,6 +369,25 @@ func judgePath(c PathCase) *eng.Fail {
 	if arr[2] != interface{}(isNullGo(want.val)) {
 		return eng.F("C16/null-equality", "%s === null is %s, expected %v", src, show(arr[2]), isNullGo(want.val))
 	}
+	// null and typed nil pointers are "equal to null" under the loose operators as well, on either side
+	// (what a non-null value of another kind loosely equals is not fixed by the statement)
+	if !isNullGo(want.val) {
+		return nil
+	}
+	p2 := safeParse([]byte("[" + src + " == null, null == " + src + ", " + src + " != null, null !== " + src + "]"))
+	if p2.panicked || p2.err != nil {
+		return eng.F("C16/parse", "%s == null: %v %s", src, p2.err, p2.panicMsg)
+	}
+	r2 := formula.NewRunner()
+	if data != nil {
+		r2.SetThis(data)
+	}
+	o2 := safeResolve(r2, bg, p2.src.Expression)
+	isN := isNullGo(want.val)
+	arr2, _ := o2.val.([]interface{})
+	if o2.panicked || o2.err != nil || len(arr2) != 4 || arr2[0] != interface{}(isN) || arr2[1] != interface{}(isN) || arr2[2] != interface{}(!isN) || arr2[3] != interface{}(!isN) {
+		return eng.F("C16/null-equality", "[%s == null, null == %s, %s != null, null !== %s] on config %s = %s %v %s, expected [%v, %v, %v, %v]", src, src, src, src, c.Config, show(o2.val), o2.err, o2.panicMsg, isN, isN, !isN, !isN)
+	}
 	return nil
 }
 
@@ -382,7 +403,7 @@ func runC16(w *eng.W) {
 		segs = append(segs, "."+k, "!."+k)
 	}
 	var deepSegs []string
-	for _, k := range []string{"k", "s", "M", "q", "n", "np", "z", "i64", "mi", "A", "b", "Missing", "str", "sa", "sb", "Name", "zt", "nsl"} {
+	for _, k := range []string{"k", "s", "M", "q", "n", "np", "z", "i64", "mi", "A", "b", "Missing", "str", "sa", "sb", "Name", "zt", "nsl", "npd", "npi"} {
 		deepSegs = append(deepSegs, "."+k, "!."+k)
 	}
 	for _, cfg := range []string{"full", "nulls", "empty", "none"} {
